@@ -933,6 +933,196 @@ def pipeline(s):
 SCRIPTS["pipeline"] = pipeline
 
 
+def lingering(s):
+    """C08 C02 C01 C11 C14 (tear-down paths): one side is attached over SEVERAL connections (an old one that never
+    noticed it was replaced, and a new one); the mailbox is closed by its last open side over one of them, or swept, or
+    the service restarts, while the others are still connected -- and only then do the lingering connections send
+    their own first close / add / a second open / release, or just disconnect.  Each of them is a connection that
+    never closed: its close must be answered `closed`, its other commands as on any connection without a mailbox."""
+    r = s.rng
+    app = r.choice(["a1", "a2"])
+    for _ in range(r.choice([1, 2, 3])):
+        name = r.choice(["1", "3"])
+        use_np = r.random() < 0.6
+        olds = []
+        mb = r.choice(["m1", "mling"])
+        for i in range(r.choice([1, 2])):
+            c = Client(s, app, "s1")
+            if use_np:
+                mb = _claimed_mb(c.cmd({"type": "claim", "nameplate": name})) or mb
+            c.cmd({"type": "open", "mailbox": mb})
+            if r.random() < 0.5:
+                c.cmd({"type": "add", "phase": "p%d" % i, "body": "0%d" % i})
+            olds.append(c)
+        b = None
+        if r.random() < 0.6:
+            b = Client(s, app, "s2")
+            if use_np and r.random() < 0.6:
+                b.cmd({"type": "claim", "nameplate": name})
+            b.cmd({"type": "open", "mailbox": mb})
+            b.cmd({"type": "add", "phase": "b", "body": "bb"})
+            if r.random() < 0.4:
+                olds.append(Client(s, app, "s2"))
+                olds[-1].cmd({"type": "open", "mailbox": mb})
+        new = Client(s, app, "s1")
+        if use_np and r.random() < 0.5:
+            new.cmd({"type": "claim", "nameplate": name})
+        new.cmd({"type": "open", "mailbox": mb})
+        foreign = None
+        if r.random() < 0.35:
+            # a client of ANOTHER app names the same mailbox id (known finding KF1: refused with an internal error and
+            # dropped; if it is ever let in, it must not outlive the mailbox with a usable handle)
+            foreign = Client(s, "a3" if app != "a3" else "a1", r.choice(["s1", "s2"]))
+            foreign.cmd({"type": "open", "mailbox": mb})
+        how = r.choice(["close", "close", "close", "sweep", "restart"])
+        if how == "close":
+            if b is not None:
+                if use_np and r.random() < 0.5:
+                    b.cmd({"type": "release"})
+                b.cmd({"type": "close", "mood": "happy"})
+                if r.random() < 0.5:
+                    b.drop()
+            if use_np and r.random() < 0.5:
+                new.cmd({"type": "release"})
+            new.cmd({"type": "close", "mood": "happy"})          # the last open side closes: the mailbox is retired
+            if r.random() < 0.5:
+                new.drop()
+        elif how == "sweep":
+            if b is not None:
+                b.drop()
+            new.drop()
+            for c in olds:
+                c.drop()
+            olds = [Client(s, app, "s1")]                          # bound, nothing open, across the sweeps
+            _adv(s, s.w.EXP + s.w.PERIOD + 1)
+        else:
+            s.emit({"k": "restart"})
+            s.cinfo.clear()
+            olds = []
+            c = Client(s, app, "s1")
+            c.cmd({"type": "open", "mailbox": mb})
+            olds.append(c)
+            c2 = Client(s, app, "s1")
+            c2.cmd({"type": "open", "mailbox": mb})
+            c2.cmd({"type": "close", "mood": "lonely"})
+            if b is not None:
+                b2 = Client(s, app, "s2")
+                b2.cmd({"type": "close", "mailbox": mb, "mood": "happy"})
+                b2.drop()
+        # the lingering connections speak up
+        r.shuffle(olds)
+        for c in olds:
+            x = r.random()
+            if x < 0.5:
+                c.cmd({"type": "close", "mood": "happy"} if r.random() < 0.5 else {"type": "close", "mailbox": mb, "mood": "happy"})
+                if r.random() < 0.3:
+                    c.cmd({"type": "close", "mailbox": mb})      # a second close on the same connection: refused
+            elif x < 0.7:
+                c.cmd({"type": "add", "phase": "late", "body": "ee"})
+                c.cmd({"type": "close", "mood": "errory"})
+            elif x < 0.85:
+                if use_np:
+                    c.cmd({"type": "release"})
+                c.cmd({"type": "open", "mailbox": mb})
+                c.cmd({"type": "close"})
+            if r.random() < 0.7:
+                c.drop()
+        if foreign is not None:
+            foreign.cmd({"type": "add", "phase": "f", "body": "ff"})
+            if r.random() < 0.5:
+                foreign.cmd({"type": "close", "mood": "happy"})
+            foreign.drop()
+        if r.random() < (0.3 if foreign is not None else 0.7):
+            peer = Client(s, app, "s2")
+            peer.cmd({"type": "open", "mailbox": mb})               # the id again: must start empty
+            peer.cmd({"type": "list"})
+            peer.cmd({"type": "close", "mood": "lonely"})
+            peer.drop()
+        for c in olds + [new] + ([b] if b else []):
+            c.drop()
+        pause(s)
+
+
+SCRIPTS["lingering"] = lingering
+
+
+def warm_order(s):
+    """C03 C04 C07 (whatever a process remembers about names, claims and mailboxes is filled in SOME order): a
+    nameplate is claimed by one or two sides, the server restarts (or not), and the sides come back in every order of
+    {open the mailbox, claim the name again, list, allocate} -- the open before the claim, the peer before the owner;
+    then the incarnation is retired by every route (releases and closes, closes only, one of each, a sweep), and the
+    name is claimed again by the same side and by a new one: a fresh mailbox id, the same for both, listed once."""
+    r = s.rng
+    app = r.choice(["a1", "a2"])
+    for _ in range(r.choice([1, 2, 3])):
+        name = r.choice(["1", "2", "5"])
+        a = Client(s, app, "s1")
+        mb = _claimed_mb(a.cmd({"type": "claim", "nameplate": name}))
+        if mb is None:
+            a.drop()
+            continue
+        two = r.random() < 0.6
+        if two:
+            b = Client(s, app, "s2")
+            b.cmd({"type": "claim", "nameplate": name})
+            if r.random() < 0.5:
+                b.cmd({"type": "open", "mailbox": mb})
+        if r.random() < 0.5:
+            a.cmd({"type": "open", "mailbox": mb})
+            a.cmd({"type": "add", "phase": "p", "body": "01"})
+        if r.random() < 0.7:
+            s.emit({"k": "restart"})
+            s.cinfo.clear()
+        else:
+            a.drop()
+            if two:
+                b.drop()
+        # they come back, in some order
+        A, B = Client(s, app, "s1"), (Client(s, app, "s2") if two else None)
+        steps = [(A, {"type": "open", "mailbox": mb}), (A, {"type": "claim", "nameplate": name})]
+        if two:
+            steps += [(B, {"type": "open", "mailbox": mb}), (B, {"type": "claim", "nameplate": name})]
+        if r.random() < 0.4:
+            steps.append((A, {"type": "list"}))
+        if r.random() < 0.3:
+            steps.append((Client(s, app, "s4"), {"type": "allocate"}))
+        r.shuffle(steps)
+        for c, m in steps:
+            c.cmd(m)
+        # retire the incarnation
+        route = r.choice(["close-only", "close-only", "release-close", "mixed", "sweep"])
+        sides = [A] + ([B] if two else [])
+        if route == "sweep":
+            for c in sides:
+                c.drop()
+            _adv(s, s.w.EXP + s.w.PERIOD + 1)
+        else:
+            for i, c in enumerate(sides):
+                if route == "release-close" or (route == "mixed" and i == 0):
+                    c.cmd({"type": "release", "nameplate": name})
+                c.cmd({"type": "close", "mailbox": mb, "mood": "happy"})
+                if r.random() < 0.5:
+                    c.drop()
+        # the name again
+        again = Client(s, app, "s1") if r.random() < 0.6 else A
+        m1 = _claimed_mb(again.cmd({"type": "claim", "nameplate": name}))
+        other = Client(s, app, r.choice(["s2", "s3"]))
+        m2 = _claimed_mb(other.cmd({"type": "claim", "nameplate": name}))
+        other.cmd({"type": "list"})
+        if r.random() < 0.5 and m1:
+            again.cmd({"type": "open", "mailbox": m1})
+            again.cmd({"type": "add", "phase": "q", "body": "02"})
+        for c in (again, other):
+            c.cmd({"type": "release", "nameplate": name})
+            c.drop()
+        for c in sides:
+            c.drop()
+        pause(s)
+
+
+SCRIPTS["warm-order"] = warm_order
+
+
 def run(name, session):
     SCRIPTS[name](session)
 
